@@ -22,9 +22,14 @@ import time
 
 ROOT = os.path.dirname(os.path.dirname(os.path.abspath(__file__)))
 COQ = os.path.join(ROOT, "coq")
-HARNESS = os.path.join(ROOT, "harness")
+# VERIF_SANDBOX (used only by lib/seedsandbox.py to try seeded changes in parallel without touching /repo): a directory
+# holding a copy of the harness whose path dependency is a scratch worktree, and receiving work/, replays/, evidence/
+SANDBOX = os.environ.get("VERIF_SANDBOX")
+OUTROOT = SANDBOX or ROOT
+HARNESS = os.path.join(OUTROOT, "harness")
 DRIVER = os.path.join(ROOT, "ocaml", "driver")
-WORK = os.path.join(ROOT, "work")
+WORK = os.path.join(OUTROOT, "work")
+REPO = os.path.join(SANDBOX, "repo") if SANDBOX else "/repo"
 
 ALLOWED_AXIOMS = {
     # standard-library axioms that may appear (none is expected; each is named in DESIGN.md section 5)
@@ -58,8 +63,9 @@ def sh(cmd, cwd=None, timeout=3600, env=None):
 
 class Lock:
     def __init__(self, name):
-        os.makedirs(WORK, exist_ok=True)
-        self.path = os.path.join(WORK, name + ".lock")
+        base = os.path.join(ROOT, "work") if name == "coq" else WORK     # the Coq tree is shared by all sandboxes
+        os.makedirs(base, exist_ok=True)
+        self.path = os.path.join(base, name + ".lock")
 
     def __enter__(self):
         self.f = open(self.path, "w")
@@ -200,12 +206,12 @@ def build_harness(release=False):
     with Lock("cargo"):
         lock = os.path.join(HARNESS, "Cargo.lock")
         if not os.path.exists(lock):
-            sh(["cp", "/repo/Cargo.lock", lock])
+            sh(["cp", os.path.join(REPO, "Cargo.lock"), lock])
         cmd = "cargo build --offline" + (" --release" if release else "")
         rc, out = sh(cmd, cwd=HARNESS, timeout=3000)
         if rc != 0:
             # the lock file may be stale relative to /repo
-            sh(["cp", "/repo/Cargo.lock", lock])
+            sh(["cp", os.path.join(REPO, "Cargo.lock"), lock])
             rc, out = sh(cmd, cwd=HARNESS, timeout=3000)
     return rc == 0, out
 
@@ -333,7 +339,7 @@ def regen_of(label, header):
 
 
 def write_replay(prop, name, payload):
-    d = os.path.join(ROOT, "replays")
+    d = os.path.join(OUTROOT, "replays")
     os.makedirs(d, exist_ok=True)
     path = os.path.join(d, name)
     json.dump(payload, open(path, "w"), indent=1)
@@ -559,8 +565,8 @@ def run_check(prop, plugin, tier, seed, replay=None):
     }
     if not cov["samples"]:
         cov["samples"] = [{"note": "no non-trivial case generated"}]
-    os.makedirs(os.path.join(ROOT, "evidence"), exist_ok=True)
-    json.dump(ev, open(os.path.join(ROOT, "evidence", prop + ".json"), "w"), indent=1)
+    os.makedirs(os.path.join(OUTROOT, "evidence"), exist_ok=True)
+    json.dump(ev, open(os.path.join(OUTROOT, "evidence", prop + ".json"), "w"), indent=1)
 
     for k in known_hits:
         print("KNOWN-FINDING: property=%s %s" % (prop, k.get("what", k["id"])))
